@@ -130,7 +130,7 @@ static int ptr_typeid(int k)
 }
 
 /* ------------------------------------------------------ harness convertable */
-enum { VNone, VInt, VUint, VFlt, VChar, VStr, VColor, VLattr, VFpoint, VLine, VPtr };
+enum { VNone, VInt, VUint, VFlt, VChar, VStr, VColor, VLattr, VFpoint, VLine, VPtr, VIter };
 typedef struct {
 	MPT_INTERFACE(convertable) _conv;
 	int vclass;
@@ -143,6 +143,7 @@ typedef struct {
 	size_t rawlen;
 	int rawtype;
 	const void *ptr;       /* VPtr: object address */
+	MPT_INTERFACE(metatype) *iter;   /* VIter: value list iterator (mpt_iterator_values) */
 	int ptrtype;
 	int empty;             /* answer "no value" (0) instead of delivering */
 	/* record */
@@ -238,6 +239,13 @@ static int hconv_convert(MPT_INTERFACE(convertable) *conv, MPT_TYPE(type) type, 
 	if ((h->vclass == VColor || h->vclass == VLattr || h->vclass == VFpoint || h->vclass == VLine) && (int) type == h->rawtype) {
 		return deliver(h, type, ptr, h->raw, h->rawlen);
 	}
+	if (h->vclass == VIter) {
+		int r;
+		if (type != MPT_ENUM(TypeIteratorPtr) || !h->iter) return MPT_ERROR(BadType);
+		r = MPT_metatype_convert(h->iter, type, ptr);
+		if (r >= 0) { h->ndeliv++; h->dtype = (int) type; h->dlen = 0; h->dstr = 0; }
+		return r < 0 ? r : 1;
+	}
 	if (h->vclass == VPtr && (int) type == h->ptrtype) {
 		return deliver(h, type, ptr, &h->ptr, sizeof(h->ptr));
 	}
@@ -264,6 +272,7 @@ static const char *hconv_str(const hconv *h)
 	case VFpoint: { float p[2]; memcpy(p, h->raw, 8); snprintf(s, 200, "%sfpoint (%.9g, %.9g)", h->empty ? "empty " : "", p[0], p[1]); break; }
 	case VLine: snprintf(s, 200, "line struct"); break;
 	case VPtr: snprintf(s, 200, "%sobject pointer (type %d)", h->empty ? "empty " : "", h->ptrtype); break;
+	case VIter: snprintf(s, 200, "value list iterator"); break;
 	default: snprintf(s, 200, "nothing");
 	}
 	return s;
@@ -534,6 +543,34 @@ static void check_read(int k, const ostore *o, const char *name, const pval *wan
 	vf_count("monitor:read-by-spelling", 1);
 }
 
+/* ------------------------------------------------ uninitialised memory monitor */
+/*
+ * Every set operation is executed a second time on a twin (copy of the
+ * object made before the operation) after the stack was filled with another
+ * byte pattern.  Return value and all properties have to agree: a difference
+ * means the result depends on memory nobody initialised.  (The heap is not
+ * varied: under ASan fresh blocks always hold the same fill byte.)
+ */
+static void __attribute__((noinline)) fill_stack(int pattern)
+{
+	volatile char pad[8000];
+	memset((void *) pad, pattern, sizeof(pad));
+	__asm__ volatile ("" : : "r"(pad) : "memory");
+}
+static void twin_compare(int k, const ostore *o, const ostore *tw, int r1, int r2, const char *ctx)
+{
+	snap a, b;
+	VF_CHECK(r1 == r2, "model:set:depends-on-uninitialised-memory", "%s: returns %d with a zero filled and %d with a 0xff filled stack", ctx, r1, r2);
+	snap_take(k, o, &a); snap_take(k, tw, &b);
+	VF_CHECK(a.n == b.n, "model:set:depends-on-uninitialised-memory", "%s: property count differs between the twins", ctx);
+	for (int i = 0; i < a.n; i++) {
+		if (!pval_eq(&a.p[i], &b.p[i])) vf_fail("model:set:depends-on-uninitialised-memory", "%s: '%s' is %s with a zero filled and %s with a 0xff filled stack", ctx, a.p[i].name, pval_str(&a.p[i]), pval_str(&b.p[i]));
+	}
+	if (k == KLine && memcmp(o, tw, osize(k))) vf_fail("model:set:depends-on-uninitialised-memory", "%s: line bytes differ between the twins", ctx);
+	snap_free(&a); snap_free(&b);
+	vf_count("monitor:twin-comparisons", 1);
+}
+
 /* ------------------------------------------------------------------ oracle */
 static const char *clipnames[8] = { "", "x", "y", "xy", "z", "xz", "yz", "xyz" };
 
@@ -652,11 +689,23 @@ static int do_set(int k, ostore *o, const pname *pn, hconv *h, const char *spell
 	const char *why;
 	pval want;
 
+	ostore tw;
+	hconv h2;
 	fresh_init();
 	snap_take(k, o, &before);
 	snprintf(ctx, sizeof(ctx), "mpt_%s_set(\"%s\", %s)", kname[k], spelled, h ? hconv_str(h) : "NULL");
 	vf_log("%s", ctx);
+	o_init(k, &tw, o);
+	if (h) h2 = *h;
+	fill_stack(0x00);
 	r = o_set(k, o, spelled, h ? &h->_conv : 0);
+	{
+		int r2;
+		fill_stack(0xff);
+		r2 = o_set(k, &tw, spelled, h ? &h2._conv : 0);
+		twin_compare(k, o, &tw, r, r2, ctx);
+		o_fini(k, &tw);
+	}
 	vf_log("  -> %d (requests %d, delivered %d, last type %d)", r, h ? h->nreq : 0, h ? h->ndeliv : 0, h ? h->dtype : 0);
 	if (r < 0) {
 		check_unchanged(k, o, &before, "model:set:refused-modified", ctx);
@@ -745,8 +794,20 @@ static void do_set_string(int k, ostore *o, const pname *pn, const char *text, v
 	snap_take(k, o, &before);
 	snprintf(ctx, sizeof(ctx), "mpt_object_set_string(%s, \"%s\", \"%.80s\")", kname[k], pn->set, text ? text : "(null)");
 	vf_log("%s", ctx);
-	vf_at("mpt_object_set_string");
-	ret = mpt_object_set_string(&w._obj, pn->set, text, 0);
+	{
+		ostore tw;
+		owrap w2;
+		int r2;
+		o_init(k, &tw, o);
+		w2._obj._vptr = &owrap_vptr; w2.k = k; w2.o = &tw;
+		fill_stack(0x00);
+		vf_at("mpt_object_set_string");
+		ret = mpt_object_set_string(&w._obj, pn->set, text, 0);
+		fill_stack(0xff);
+		r2 = mpt_object_set_string(&w2._obj, pn->set, text, 0);
+		twin_compare(k, o, &tw, ret, r2, ctx);
+		o_fini(k, &tw);
+	}
 	vf_count("mpt_object_set_string", 1);
 	vf_log("  -> %d", ret);
 	if (ret < 0) {
@@ -1143,10 +1204,10 @@ static float fp_value(int p, int i)
 	static const float scale[NFVAL] = { -1, -1e-30f, 0, 2, 1e30f, FLT_MAX, 0.25f };
 	return fprops[p].max > 1 ? scale[i] : unit[i];
 }
-static uint64_t fpoint_count(void) { return (uint64_t) NFPROP * NFVAL * NFVAL * 3; }
+static uint64_t fpoint_count(void) { return (uint64_t) NFPROP * NFVAL * NFVAL * 5; }
 static void case_fpoint(uint64_t idx, vf_rng *r)
 {
-	int via = (int) (idx % 3), yi = (int) (idx / 3 % NFVAL), xi = (int) (idx / 3 / NFVAL % NFVAL), p = (int) (idx / 3 / NFVAL / NFVAL);
+	int via = (int) (idx % 5), yi = (int) (idx / 5 % NFVAL), xi = (int) (idx / 5 / NFVAL % NFVAL), p = (int) (idx / 5 / NFVAL / NFVAL);
 	int k = fprops[p].k, t, ret, expect_ok;
 	float x = fp_value(p, xi), y = fp_value(p, yi), got[2];
 	ostore o;
@@ -1154,7 +1215,7 @@ static void case_fpoint(uint64_t idx, vf_rng *r)
 	char ctx[200], txt[80];
 	pname pn = { fprops[p].set, fprops[p].get, 0 };
 
-	if (via == 2) y = x;    /* single numeral: both coordinates */
+	if (via == 2 || via == 3) y = x;    /* single value: both coordinates (comment in mpt_fpoint_set) */
 	expect_ok = x >= fprops[p].min && x <= fprops[p].max && y >= fprops[p].min && y <= fprops[p].max;
 	fresh_init();
 	o_init(k, &o, 0);
@@ -1172,20 +1233,53 @@ static void case_fpoint(uint64_t idx, vf_rng *r)
 		snprintf(ctx, sizeof(ctx), "mpt_%s_set(\"%s\", fpoint (%.9g, %.9g))", kname[k], pn.set, x, y);
 		vf_log("%s", ctx);
 		ret = o_set(k, &o, pn.set, &h._conv);
+	} else if (via >= 3) {
+		/* source that offers an iterator over one / two values */
+		hconv h, h2;
+		ostore tw;
+		int r2;
+		if (via == 3) snprintf(txt, sizeof(txt), "%.9g", x); else snprintf(txt, sizeof(txt), "%.9g %.9g", x, y);
+		hconv_init(&h); h.vclass = VIter; h.iter = mpt_iterator_values(txt);
+		hconv_init(&h2); h2.vclass = VIter; h2.iter = mpt_iterator_values(txt);
+		if (!h.iter || !h2.iter) vf_inconclusive("mpt_iterator_values(\"%s\") failed", txt);
+		snprintf(ctx, sizeof(ctx), "mpt_%s_set(\"%s\", iterator over \"%s\")", kname[k], pn.set, txt);
+		vf_log("%s", ctx);
+		o_init(k, &tw, &o);
+		fill_stack(0x00);
+		ret = o_set(k, &o, pn.set, &h._conv);
+		fill_stack(0xff);
+		r2 = o_set(k, &tw, pn.set, &h2._conv);
+		twin_compare(k, &o, &tw, ret, r2, ctx);
+		o_fini(k, &tw);
+		h.iter->_vptr->unref(h.iter); h2.iter->_vptr->unref(h2.iter);
+		vf_count("fpoint:iterator-source", 1);
 	} else {
 		owrap w;
 		w._obj._vptr = &owrap_vptr; w.k = k; w.o = &o;
 		if (via == 1) snprintf(txt, sizeof(txt), "%.9g %.9g", x, y); else snprintf(txt, sizeof(txt), "%.9g", x);
 		snprintf(ctx, sizeof(ctx), "mpt_object_set_string(%s, \"%s\", \"%s\")", kname[k], pn.set, txt);
 		vf_log("%s", ctx);
-		vf_at("mpt_object_set_string");
-		ret = mpt_object_set_string(&w._obj, pn.set, txt, 0);
+		{
+			ostore tw;
+			owrap w2;
+			int r2;
+			o_init(k, &tw, &o);
+			w2._obj._vptr = &owrap_vptr; w2.k = k; w2.o = &tw;
+			fill_stack(0x00);
+			vf_at("mpt_object_set_string");
+			ret = mpt_object_set_string(&w._obj, pn.set, txt, 0);
+			fill_stack(0xff);
+			r2 = mpt_object_set_string(&w2._obj, pn.set, txt, 0);
+			twin_compare(k, &o, &tw, ret, r2, ctx);
+			o_fini(k, &tw);
+		}
 		vf_count("mpt_object_set_string", 1);
 	}
 	vf_log("  -> %d", ret);
 	vf_count("monitor:fpoint-grid", 1);
 	if (ret < 0) {
-		/* a single numeral for a point is refused by the library (second coordinate missing): not claimed either way */
+		/* a single numeral as TEXT is refused on this tree (the text iterator reports BadType instead of MissingData for
+		 * the missing second element): not claimed either way; from an iterator source see via 3 */
 		if (via != 2) VF_CHECK(!expect_ok, "model:set:refused-in-range-point", "%s: returned %d, both coordinates are inside [%.9g,%.9g]", ctx, ret, fprops[p].min, fprops[p].max);
 		check_unchanged(k, &o, &before, "model:set:refused-modified", ctx);
 		vf_count("fpoint:refused", 1);
